@@ -16,4 +16,22 @@ CHECKS = {
         "note": "Trusted: CPython fractions, numpy; bounded to the stated lattices (nothing is claimed for off-lattice inputs).",
         "technique": "explicit-state exhaustive enumeration of the input lattice on the real code vs exact rational reference model",
     },
+    "C03": {
+        "text": ("Every collider type x size x all 28 orientations (24 cube rotations put queries on every sign/zero boundary) "
+                 "x offsets x Margin x 30 directions x 3 norms is executed on the real support mappings and compared with "
+                 "closed-form support values and exact point-to-set distances of an independent reference model; for "
+                 "MeshGraph the hidden state (cached start vertex) is explored by BFS to closure x every direction, plus all "
+                 "query sequences of length 3."),
+        "design_ref": "DESIGN.md 5 C03",
+        "note": "Trusted: reference closed forms in mc/refmodel/shapes.py, scipy ConvexHull for hull facets; nothing is claimed off the lattice.",
+        "technique": "bounded-exhaustive input-lattice enumeration + explicit-state BFS over mesh cache state on the real code vs reference model",
+    },
+    "C04": {
+        "text": ("Full product type x size x 28 orientations x 4 offsets (x Margin) on the real aabb()/containment functions and "
+                 "RigidBody.aabb() for the six factories x 8 poses, compared with the closed-form extents -h(-e_i), h(e_i) "
+                 "(enclosure and tightness in one comparison)."),
+        "design_ref": "DESIGN.md 5 C04",
+        "note": "Trusted: reference support values. Known finding KF-C04-ellipsoid-aabb (pinned test encodes the wrong numbers) is matched only when the result equals the known wrong formula.",
+        "technique": "exhaustive enumeration of the pose/size lattice on the real code vs closed-form reference extents",
+    },
 }
